@@ -24,6 +24,8 @@
 typedef struct { int id; sem_t ready, go; uint8_t* blk[NB]; size_t sz[NB]; uint8_t* segs[NB]; } worker_t;
 static worker_t W[MAXW];
 static long nfail = 0;
+static int PARTIAL = 0;   // 1: F<i> frees all but the LAST block of worker i (the adopted segment keeps a live block); the last blocks are freed after the last event
+#define FREED(w, k) (freed[w] && (!PARTIAL || (k) < NB - 1))
 static char order_txt[64];
 static void fail(const char* kind, const char* fmt, ...) { va_list ap; va_start(ap, fmt); printf("T fail %s order=%s : ", kind, order_txt); vprintf(fmt, ap); printf("\n"); va_end(ap); nfail++; }
 static uint8_t pat(int w, int k, size_t i) { return (uint8_t)(1 + ((w * 37 + k * 11 + i * 7) & 0x7f)); }
@@ -48,12 +50,13 @@ static bool visitor(const mi_heap_t* h, const mi_heap_area_t* a, void* block, si
 }
 
 static void check_state(int n, const int* exited, const int* freed, const char* when) {
-  for (int w = 0; w < n; w++) if (!freed[w]) for (int k = 0; k < NB; k++)
+  for (int w = 0; w < n; w++) for (int k = 0; k < NB; k++) if (!FREED(w, k))
     for (size_t i = 0; i < W[w].sz[k]; i += 97) if (W[w].blk[k][i] != pat(w, k, i)) { fail("content", "%s: block %d of worker %d changed at byte %zu", when, k, w, i); break; }
   nvis = 0;
   if (!mi_abandoned_visit_blocks(mi_subproc_main(), -1, true, &visitor, NULL)) { fail("abandoned-visit", "%s: mi_abandoned_visit_blocks returned false", when); return; }
   int expect = 0;
-  for (int w = 0; w < n; w++) if (exited[w] && !freed[w]) for (int k = 0; k < NB; k++) {
+  for (int w = 0; w < n; w++) if (exited[w]) for (int k = 0; k < NB; k++) {
+    if (FREED(w, k)) continue;
     // a block of a terminated worker that was not adopted by a free: its segment is abandoned unless main adopted it already
     mi_segment_t* sg = _mi_ptr_segment(W[w].blk[k]);
     if (mi_atomic_load_relaxed(&sg->thread_id) != 0) continue;
@@ -74,9 +77,10 @@ static void run_order(int n, const int* ev, int nev, int no_arena) {
   for (int i = 0; i < nev; i++) {
     int w = ev[i] % n;
     if (ev[i] < n) { sem_post(&W[w].go); pthread_join(th[w], NULL); exited[w] = 1; }
-    else { for (int b = 0; b < NB; b++) mi_free(W[w].blk[b]); freed[w] = 1; }
+    else { for (int b = 0; b < (PARTIAL ? NB - 1 : NB); b++) mi_free(W[w].blk[b]); freed[w] = 1; }
     char when[32]; snprintf(when, sizeof when, "after event %d", i); check_state(n, exited, freed, when);
   }
+  if (PARTIAL) { for (int w = 0; w < n; w++) mi_free(W[w].blk[NB - 1]); PARTIAL = 0; check_state(n, exited, freed, "after the last blocks"); PARTIAL = 1; }
   for (int r = 0; r < 2; r++) mi_collect(true);
   size_t ac = mi_atomic_load_relaxed(&mi_subproc_default.abandoned_count);
   if (ac != 0) fail("abandoned-leak", "abandoned_count = %zu after everything was freed and force-collected", ac);
@@ -107,6 +111,7 @@ static void permute(int n, int* ev, int pos, int nev, unsigned used, int no_aren
 int main(int argc, char** argv) {
   int no_arena = argc > 1 ? atoi(argv[1]) : 0, rof = argc > 2 ? atoi(argv[2]) : 0, n = argc > 3 ? atoi(argv[3]) : 3;
   uint64_t seed = argc > 4 ? strtoull(argv[4], NULL, 10) : 1;
+  PARTIAL = argc > 5 ? atoi(argv[5]) : 0;
   if (n < 2) n = 2; if (n > MAXW) n = MAXW;
   mi_option_set(mi_option_visit_abandoned, 1);
   if (no_arena) mi_option_set(mi_option_disallow_arena_alloc, 1);
@@ -116,6 +121,6 @@ int main(int argc, char** argv) {
   int ev[2 * MAXW];
   if (n <= 3) permute(n, ev, 0, 2 * n, 0, no_arena);
   else { prng_t g; prng_seed(&g, seed); for (int r = 0; r < 400; r++) { for (int i = 0; i < 2 * n; i++) ev[i] = i; for (int i = 2 * n - 1; i > 0; i--) { int j = (int)prng_below(&g, (size_t)i + 1); int t = ev[i]; ev[i] = ev[j]; ev[j] = t; } run_order(n, ev, 2 * n, no_arena); norders++; } }
-  printf("T sum orders=%ld workers=%d no_arena=%d reclaim_on_free=%d failures=%ld\nEND\n", norders, n, no_arena, rof, nfail);
+  printf("T sum orders=%ld workers=%d no_arena=%d reclaim_on_free=%d partial=%d failures=%ld\nEND\n", norders, n, no_arena, rof, PARTIAL, nfail);
   return 0;
 }
